@@ -1,4 +1,6 @@
 import Sentinel.World
+import Sentinel.Hotspot
+import SentinelProofs.Lemmas.Lru
 /-!
 # C05 — concurrency caps (isolation part)
 
@@ -135,8 +137,138 @@ theorem isoSys_enter_eq_isoCheck (rules : List IsoRule) (s : IsoSys) (node : Nod
       have := (isolation_admit_iff rules node b).mp hc r hr
       rw [h] at this; simpa using this
 
+/-! ## hotspot concurrency: the same guarantee per parameter value
+
+`HsCtrl.checkConc` reads one cell of the rule's counter (the value's in-flight count; absent = never seen), the
+statistic slot raises it on admission and lowers it on exit. `hcStep` is that behaviour for ONE value with
+effective threshold `T` (the per-value override if there is one, else the rule threshold). Note: the code counts
+entries (the batch count plays no role) and the first request for a never-seen value is always admitted. -/
+
+/-- one value's cell through one request: returns the cell after the check and whether it was admitted -/
+def hcCheck (T : Nat) (cell : Option Nat) : Option Nat × Bool :=
+  match cell with
+  | none => (some 0, true)
+  | some v => (some v, decide (v + 1 ≤ T))
+
+/-- admission raises the cell, exit lowers it -/
+def hcStep (T : Nat) (cell : Option Nat) : IOp → Option Nat × Bool
+  | .enter _ =>
+    let (c, ok) := hcCheck T cell
+    (if ok then c.map (· + 1) else c, ok)
+  | .exit => (cell.map (· - 1), true)
+
+def hcRun (T : Nat) : List IOp → Option Nat
+  | [] => none
+  | op :: older => (hcStep T (hcRun T older) op).1
+
+/-- **Admission rule per value**: a request for value `v` is admitted iff `v` was never seen or in-flight(v) + 1 ≤ T_v -/
+theorem hs_conc_admit_iff (T : Nat) (cell : Option Nat) :
+    (hcCheck T cell).2 = true ↔ cell = none ∨ ∃ v, cell = some v ∧ v + 1 ≤ T := by
+  cases cell with
+  | none => simp [hcCheck]
+  | some v => simp [hcCheck]
+
+/-- **Cap per value**: for `T ≥ 1`, the value's in-flight count never exceeds `T`, after any build/exit sequence -/
+theorem hs_conc_cap (T : Nat) (hT : 1 ≤ T) (ops : List IOp) : ∀ v, hcRun T ops = some v → v ≤ T := by
+  induction ops with
+  | nil => intro v h; cases h
+  | cons op older ih =>
+    intro v h
+    simp only [hcRun] at h
+    cases op with
+    | exit =>
+      simp only [hcStep] at h
+      cases hc : hcRun T older with
+      | none => rw [hc] at h; cases h
+      | some x => rw [hc] at h; simp at h; have := ih x hc; omega
+    | enter b =>
+      simp only [hcStep, hcCheck] at h
+      cases hc : hcRun T older with
+      | none => rw [hc] at h; simp at h; omega
+      | some x =>
+        rw [hc] at h
+        have := ih x hc
+        by_cases hle : x + 1 ≤ T
+        · simp [hle] at h; omega
+        · simp [hle] at h; omega
+
+/-- **The rule's check is the per-value check**: for a value with room in the counter, `checkConc` decides as `hcCheck` does on
+that value's cell (threshold = override if present, else the rule threshold), names the in-flight count + 1 as snapshot,
+and leaves every other value's cell untouched -/
+theorem checkConc_cell (c : HsCtrl) (arg other : String) (h : c.conc.Room arg) :
+    ((c.checkConc arg).2 = .pass ↔ (hcCheck (c.rule.thrFor arg) (c.conc.peek arg)).2 = true) ∧
+    (c.checkConc arg).1.conc.peek arg = (hcCheck (c.rule.thrFor arg) (c.conc.peek arg)).1 ∧
+    (other ≠ arg → (c.checkConc arg).1.conc.peek other = c.conc.peek other) ∧
+    (∀ snap why, (c.checkConc arg).2 = .blocked snap why → ∃ v, c.conc.peek arg = some v ∧ snap = v + 1) := by
+  have hA := Lru.peek_addIfAbsent c.conc arg arg 0 h
+  have hO := Lru.peek_addIfAbsent c.conc arg other 0 h
+  simp only [if_true] at hA
+  unfold HsCtrl.checkConc hcCheck
+  cases hp : c.conc.peek arg with
+  | none =>
+    have e : c.conc.addIfAbsent arg 0 = ((c.conc.addIfAbsent arg 0).1, none) := by
+      have := hA.1; rw [hp] at this; rw [← this]
+    rw [e]; simp only []
+    refine ⟨by simp, by rw [hA.2, hp]; rfl, fun hne => by rw [hO.2]; simp [hne], fun s w hh => by cases hh⟩
+  | some v =>
+    have e : c.conc.addIfAbsent arg 0 = ((c.conc.addIfAbsent arg 0).1, some v) := by
+      have := hA.1; rw [hp] at this; rw [← this]
+    rw [e]; simp only []
+    have h1 : (c.conc.addIfAbsent arg 0).1.peek arg = some v := by rw [hA.2, hp]; rfl
+    have ho : other ≠ arg → (c.conc.addIfAbsent arg 0).1.peek other = c.conc.peek other := by
+      intro hne; rw [hO.2]; simp [hne]
+    by_cases hle : v + 1 ≤ c.rule.thrFor arg
+    · simp only [hle, if_true, decide_true]
+      exact ⟨by simp, h1, ho, fun s w hh => by cases hh⟩
+    · simp only [hle, if_false, decide_false]
+      refine ⟨by constructor <;> (intro hh; cases hh), h1, ho, fun s w hh => ?_⟩
+      simp only [HsRes.blocked.injEq] at hh
+      exact ⟨v, rfl, hh.1.symm⟩
+
+/-- a per-value override replaces the threshold for that value only -/
+theorem override_local (r : HsRule) (v w : String) (t : Nat) (hvw : (v == w) = false)
+    (hw : r.specific.find? (fun p => p.1 == w) = none) :
+    ({ r with specific := (v, t) :: r.specific } : HsRule).thrFor v = t ∧
+    ({ r with specific := (v, t) :: r.specific } : HsRule).thrFor w = r.thr := by
+  constructor
+  · simp [HsRule.thrFor]
+  · simp [HsRule.thrFor, hvw, hw]
+
+/-! ### parameter extraction -/
+
+/-- a keyed parameter, when present, has priority over the positional one -/
+theorem extract_key_priority (r : HsRule) (args : Option (List String)) (atts : List (String × String)) (v : String)
+    (hk : r.paramKey.trimAscii.toString ≠ "")
+    (hv : (atts.find? (fun p => p.1 == r.paramKey.trimAscii.toString)).map (·.2) = some v) :
+    extractArgs r args (some atts) = some v := by
+  unfold extractArgs
+  have : (r.paramKey.trimAscii.toString == "") = false := by simpa using hk
+  simp only [this, Bool.false_eq_true, if_false, hv]
+
+/-- a negative index counts from the end of the argument list -/
+theorem extract_negative_index (r : HsRule) (args : List String) (k : Nat) (hk : r.paramIndex = -(k + 1 : Nat))
+    (hlen : k < args.length) :
+    extractArgs r (some args) none = args[args.length - (k + 1)]? := by
+  unfold extractArgs
+  have hneg : r.paramIndex < 0 := by rw [hk]; omega
+  have hidx : r.paramIndex + (args.length : Int) = ((args.length - (k + 1) : Nat) : Int) := by rw [hk]; omega
+  simp only [hneg, if_true, hidx]
+  have : ¬ (((args.length - (k + 1) : Nat) : Int) < 0) := by omega
+  simp only [this, if_false, Int.toNat_natCast]
+
+/-- a missing parameter (index out of range, no arguments, key absent) makes the rule not apply -/
+theorem extract_missing (r : HsRule) (args : List String) (hpos : 0 ≤ r.paramIndex) (hout : args.length ≤ r.paramIndex.toNat) :
+    extractArgs r (some args) none = none := by
+  unfold extractArgs
+  have h1 : ¬ r.paramIndex < 0 := by omega
+  simp only [h1, if_false]
+  exact List.getElem?_eq_none hout
+
+theorem extract_nothing (r : HsRule) : extractArgs r none none = none := rfl
+
 /-! ## non-vacuity -/
 example : (IsoSys.run [⟨"i", 2⟩] [.enter 1, .exit, .enter 1, .enter 1, .enter 1]).conc = 2 := by decide
 example : isoCheck [⟨"i", 2⟩, ⟨"j", 1⟩] { conc := 1 } 1 = some ("j", 1) := by decide
+example : hcRun 2 [.enter 1, .enter 1, .exit, .enter 1, .enter 1, .enter 1] = some 2 := by decide
 
 end Sentinel
